@@ -24,6 +24,9 @@ pub enum ReplyFault {
     Garbage(u32),
     /// I/O error at a fraction of the head
     IoErr(u16),
+    /// a status line (2xx or not) followed by a header section that is not one: 0 a line without a colon, 1 a lone LF where
+    /// the empty line should be (then the connection ends): whatever the status says, no well-formed head was read
+    BadHead(u8),
 }
 
 #[derive(Debug, Clone, Serialize, Deserialize)]
@@ -71,6 +74,10 @@ pub struct Case {
     /// the request is made through a Session that carries default headers (a token and a cookie meant for the origin)
     #[serde(default)]
     pub session: bool,
+    /// (verifying mode) an earlier tunnelled request on the same thread had the host-name check waived: the request that is
+    /// judged has not
+    #[serde(default)]
+    pub prior_lax: bool,
 }
 
 pub struct C12;
@@ -138,6 +145,22 @@ fn run_one(case: &Case, reply_events: Vec<Ev>, head_len: usize, head_complete: b
         _ => "good",
     };
     let inner_response = b"HTTP/1.1 200 OK\r\nContent-Length: 5\r\n\r\ninner".to_vec();
+    if case.prior_lax && matches!(case.mode, Mode::Verify { .. }) {
+        let inner = inner_response.clone();
+        let _g = install_factory(move |_dial| {
+            let reply = b"HTTP/1.1 200 Connection established\r\n\r\n".to_vec();
+            let n = reply.len();
+            let (t, _log) = TunnelPeer::new(vec![Ev::Data(reply)], n, true, "good", inner.clone());
+            Ok(Box::new(t) as Box<dyn Transport>)
+        });
+        let purl = url::Url::parse(&case.proxy.render()).expect("proxy url");
+        let _ = attohttpc::get("https://origin.test/prior")
+            .proxy_settings(attohttpc::ProxySettings::builder().https_proxy(purl).build())
+            .add_root_certificate(root_cert())
+            .danger_accept_invalid_hostnames(true)
+            .send();
+        ctx.label("a-tunnelled-request-with-the-name-check-waived-was-sent-first");
+    }
     let logs = std::sync::Arc::new(std::sync::Mutex::new(vec![]));
     let logs2 = logs.clone();
     let ev = reply_events.clone();
@@ -375,6 +398,7 @@ Oracle P1-P5 over the ordered write/serve log. non-trivial = non-2xx with body >
                 1 => Just(ReplyFault::CutAll),
                 1 => any::<u32>().prop_map(ReplyFault::Garbage),
                 1 => any::<u16>().prop_map(ReplyFault::IoErr),
+                1 => (0u8..2).prop_map(ReplyFault::BadHead),
             ],
         )
             .prop_map(|(status, reason, headers, body, fault)| Reply { status, reason, headers, body, fault, declare: 0 });
@@ -388,15 +412,15 @@ Oracle P1-P5 over the ordered write/serve log. non-trivial = non-2xx with body >
             prop_oneof![3 => Just(Mode::Danger), 2 => (any::<bool>(), any::<bool>()).prop_map(|(present_proxy_cert, ip_origin)| Mode::Verify { present_proxy_cert, ip_origin })],
             0u8..3,
             0u8..4,
-            (prop::bool::weighted(0.25), any::<bool>()),
+            (prop::bool::weighted(0.25), any::<bool>(), prop::bool::weighted(0.3)),
         )
-            .prop_map(|(origin_host, origin_port, proxy, mut reply, seg, seed, mode, auth, declare, (via_redirect, session))| {
+            .prop_map(|(origin_host, origin_port, proxy, mut reply, seg, seed, mode, auth, declare, (via_redirect, session, prior_lax))| {
                 reply.declare = declare;
                 // a 2xx reply never carries a body here (bytes after the head would be fed to TLS); keep the head intact half of the time
                 if (200..300).contains(&reply.status) {
                     reply.body = ReplyBody::None;
                 }
-                Case { origin_host, origin_port, proxy, reply, seg, seed, mode, auth, via_redirect, session }
+                Case { origin_host, origin_port, proxy, reply, seg, seed, mode, auth, via_redirect, session, prior_lax }
             })
             .boxed()
     }
@@ -493,6 +517,23 @@ Oracle P1-P5 over the ordered write/serve log. non-trivial = non-2xx with body >
                 let mut g2 = b"\x00\xff".to_vec();
                 g2.extend(g.iter().map(|b| if b.is_ascii_digit() { b'x' } else { *b }));
                 run_one(case, mk(&g2, false, false), usize::MAX, false, &body, false, ctx).outcome
+            }
+            ReplyFault::BadHead(kind) => {
+                ctx.nontrivial = true;
+                ctx.label("reply:malformed-header-section");
+                let eol = head.windows(2).position(|w| w == b"\r\n").unwrap() + 2;
+                let mut bad = head[..eol].to_vec();
+                match kind % 2 {
+                    0 => {
+                        bad.extend_from_slice(b"X-No-Colon-In-This-Line\r\n");
+                        bad.extend_from_slice(&head[eol..]);
+                    }
+                    _ => {
+                        bad.extend_from_slice(&head[eol..head.len() - 2]);
+                        bad.extend_from_slice(b"\n");
+                    }
+                }
+                run_one(case, mk(&bad, false, false), usize::MAX, false, &body, false, ctx).outcome
             }
             ReplyFault::IoErr(f) => {
                 ctx.nontrivial = true;
